@@ -303,6 +303,27 @@ mut("C07", "is-in-rhs-member", ("internal/parser/cedar_unmarshal.go", '''		p.adv
 		inEntity, err := p.add()''', '''		p.advance()
 		inEntity, err := p.mult()'''))
 
+# ---- C08
+mut("C08", "sub-right-same-level", ("internal/parser/cedar_marshal.go", '''	marshalInfixBinaryOp(n.BinaryNode, p, p+1, "-", buf)''', '''	marshalInfixBinaryOp(n.BinaryNode, p, p, "-", buf)'''))
+mut("C08", "ident-ignores-keywords", ("internal/parser/cedar_marshal.go", '''	if len(s) == 0 || IsReservedKeyword(s) {
+		return false
+	}''', '''	if len(s) == 0 {
+		return false
+	}'''))
+mut("C08", "if-binds-like-or", ("internal/parser/node.go", '''func (n NodeTypeIf) precedenceLevel() nodePrecedenceLevel {
+	return ifPrecedence''', '''func (n NodeTypeIf) precedenceLevel() nodePrecedenceLevel {
+	return orPrecedence'''))
+mut("C08", "pattern-star-unescaped", ("types/pattern.go", '''		quotedString = strings.ReplaceAll(quotedString, "*", "\\\\*")''', '''		_ = strings.ReplaceAll'''))
+mut("C08", "has-left-at-relation-level", ("internal/parser/cedar_marshal.go", '''func (n NodeTypeHas) marshalCedar(buf *bytes.Buffer) {
+	marshalChildNode(n.precedenceLevel()+1, n.Arg, buf)''', '''func (n NodeTypeHas) marshalCedar(buf *bytes.Buffer) {
+	marshalChildNode(n.precedenceLevel(), n.Arg, buf)'''))
+mut("C08", "negative-receiver-no-parens", ("internal/parser/cedar_marshal.go", '''func (n negativeLongValue) precedenceLevel() nodePrecedenceLevel { return unaryPrecedence }''', '''func (n negativeLongValue) precedenceLevel() nodePrecedenceLevel { return primaryPrecedence }'''))
+mut("C08", "record-key-go-quote", ("types/record.go", '''		sb.Write(k.MarshalCedar())''', '''		sb.WriteString(fmt.Sprintf("%q", string(k)))'''), ("types/record.go", '''	"encoding/json"
+''', '''	"encoding/json"
+	"fmt"
+'''))
+mut("C08", "double-quote-unescaped-after-first", ("internal/rust/rust.go", "\t\tb = append(b, escapeRune(r, first)...)", "\t\tif r == '\"' && !first {\n\t\t\tb = append(b, '\"')\n\t\t\tcontinue\n\t\t}\n\t\tb = append(b, escapeRune(r, first)...)"))
+
 # ---- C20
 mut("C20", "unmarshal-merges", ("policy_set.go", """	*p = PolicySet{
 		policies: make(PolicyMap, len(jsonPolicySet.StaticPolicies)),
